@@ -64,7 +64,38 @@ def _canon(x):
     return _sig(str(x))
 
 
+_ENTRY_KINDS = ("coef", "only_impl", "only_spec")
+
+
+def _structured_names(detail):
+    """detail = list of (invariant / field name, [normal-form differences]) -> the sorted set of names; None for any other shape"""
+    if not isinstance(detail, (list, tuple)) or not detail:
+        return None
+    names = set()
+    for item in detail:
+        if not (isinstance(item, (list, tuple)) and len(item) == 2 and isinstance(item[0], str) and item[0] not in _ENTRY_KINDS):
+            return None
+        body = item[1]
+        if isinstance(body, str):
+            names.add(_sig(item[0]))        # e.g. ("write", "<what is written>")
+            continue
+        if not isinstance(body, (list, tuple)):
+            return None
+        # body: one difference entry (kind, ...) or a list of them
+        names.add(_sig(item[0]))
+    return sorted(names)
+
+
 def finding_sig(detail):
+    """Signature of a refutation, used only to recognise a *recorded* finding again.
+    - a flat list of coefficient differences (e.g. F1: one coefficient Dx for Dy) is kept exactly (order / index names normalised);
+    - a structured refutation  [(violated invariant, differences), ...]  is identified by the SET OF VIOLATED INVARIANTS only: the
+      difference terms of derived fields depend on how unrelated code computes them and would make the recognition brittle under
+      behaviour-preserving edits elsewhere.  A recorded finding matches when the violated set is a non-empty subset of the recorded
+      one (see match_known), so an additional violated invariant at the same call site is still reported."""
+    names = _structured_names(detail)
+    if names is not None:
+        return "names:" + ";".join(names)
     return _canon(detail)
 
 
@@ -169,8 +200,15 @@ def match_known(res, prop, known):
             continue
         if k["property"] != prop or k.get("key") != res["key"]:
             continue
-        if k.get("sig") is not None and k["sig"] == res.get("sig", ""):
+        ks, rs = k.get("sig"), res.get("sig", "")
+        if ks is None:
+            continue
+        if ks == rs:
             return k
+        if ks.startswith("names:") and rs.startswith("names:"):
+            kn, rn = set(ks[6:].split(";")), set(rs[6:].split(";"))
+            if rn and rn <= kn:
+                return k
     return None
 
 
